@@ -165,7 +165,9 @@ def run(ctx):
     # ---- R20.2 ---------------------------------------------------------------------------
     ci = prog.fn("cmp_int64", SORTC)
     ex = absint.Explorer(prog, effects=eff)
-    for (a, b) in ((1, 2), (2, 1), (2, 2), (-3, 0)):
+    # the last six: differences that do not fit in an int (a subtraction narrowed to int changes sign or becomes 0)
+    for (a, b) in ((1, 2), (2, 1), (2, 2), (-3, 0), (0, 2 ** 31 + 5), (2 ** 31 + 5, 0), (0, 2 ** 32), (2 ** 32, 0),
+                   (-2 ** 62, 2 ** 62), (2 ** 62, -2 ** 62)):
         outs = ex.run(ci, [PTR("A"), PTR("B")], {("A", ()): INT(a), ("B", ()): INT(b)})
         rets = {o.ret for o in outs if o.kind == "ret"}
         want = -1 if a < b else (1 if a > b else 0)
